@@ -44,6 +44,10 @@ RADIAL = ("PolarSymGrid", "SphericalSymGrid", "CylindricalSymGrid")
 FIELD_CLASSES = ["ScalarField", "VectorField", "Tensor2Field"]
 RANK = {"ScalarField": 0, "VectorField": 1, "Tensor2Field": 2}
 DTYPES = ["float64", "float32", "complex128"]
+# dtypes wider than a double: a restore that silently goes through double/cdouble (``number_array`` without
+# dtype) keeps the dtype but rounds such values.  int64 entries lie beyond 2**53, longdouble entries need
+# more than 53 mantissa bits.  Explored on a reduced (still complete) sub-product in quick, see main().
+WIDE_DTYPES = ["int64", "longdouble"]
 LABELS = [None, "phi", 'q"uo\\te ü\n']  # None, plain, one that needs JSON escaping
 
 GRID_ROUTES = [
@@ -441,12 +445,36 @@ def _data(shape, dtype, seed, k):
     import numpy as np
 
     rng = np.random.default_rng([int(seed), int(k)])
+    if dtype == "int64":  # every entry beyond 2**53 and odd => not representable in a double
+        a = (rng.integers(2**58, 2**62, size=shape, dtype=np.int64) | 1) * rng.choice(np.array([-1, 1]), size=shape)
+        a.flat[0] = 2**60 + 37
+        a.flat[-1] = -(2**61) - 5
+        return a.astype(np.int64)
+    if dtype == "longdouble":  # every entry carries bits below the 53rd mantissa bit (where longdouble is wider)
+        a = rng.uniform(-2, 2, size=shape).astype(np.longdouble)
+        a = a + (2 * rng.integers(1, 1000, size=shape) + 1) * np.longdouble(2) ** -62
+        a.flat[0] = 1 + np.longdouble(2) ** -60
+        return a
     a = rng.uniform(-2, 2, size=shape)
     if dtype == "complex128":
         a = a + 1j * rng.uniform(-2, 2, size=shape)
     a = a.astype(dtype)
     a.flat[0] = -0.0
     return a
+
+
+def _same_values(x, y):
+    """exact equality of the values of two arrays of possibly different dtype
+
+    (``np.array_equal`` would first cast an int64 to double and call 2**60+37 equal to 2**60)
+    """
+    import numpy as np
+
+    if x.shape != y.shape:
+        return False
+    if np.finfo(np.longdouble).nmant >= 63:  # x86 extended precision holds every int64/uint64/double exactly
+        return bool(np.array_equal(x.astype(np.clongdouble), y.astype(np.clongdouble)))
+    return x.ravel().tolist() == y.ravel().tolist()  # python compares int with float exactly
 
 
 def _field_cls(name):
@@ -461,11 +489,15 @@ def make_field(grid, fcls, dtype, label, seed, k=0):
     # ghost cells are zeroed: py-pde would leave them uninitialised (np.empty), and casting such garbage
     # between dtypes trips the workers' np.seterr(invalid="raise") - unrelated to the property
     f = c(grid, data="zeros", label=label, dtype=dtype)
-    f.data = _data(shape, dtype, seed, k)
+    data = _data(shape, dtype, seed, k)
+    f.data = data
+    if _bits(f.data) != _bits(data):
+        raise AssertionError(f"harness: a {dtype} field does not hold the data it was given")
     return f
 
 
 def make_collection(grid, case):
+    import numpy as np
     from pde import FieldCollection
 
     members = case["members"]
@@ -477,7 +509,7 @@ def make_collection(grid, case):
     # without an explicit dtype a collection is double / complex double whatever its members are
     want = None if case["dtype"] == "mixed" else case["dtype"]
     fc = FieldCollection(fields, label=case.get("label"), dtype=want)
-    if want is not None and (str(fc.dtype) != want or any(str(m.dtype) != want for m in fc)):
+    if want is not None and (fc.dtype != np.dtype(want) or any(m.dtype != np.dtype(want) for m in fc)):
         raise AssertionError(f"harness: could not build a {want} collection (got {fc.dtype})")
     return fc
 
@@ -579,8 +611,10 @@ def field_diff(f, ref, new, mech, prefix, where, obs=None):
             # the dtype difference is reported on its own; here only ask whether the *values* survived
             a = [f.data] if key == "data" else [m.data for m in f]
             b = [new.data] if key == "data" else [m.data for m in new]
-            if len(a) == len(b) and all(x.shape == y.shape and np.array_equal(x, y) for x, y in zip(a, b)):
+            if len(a) == len(b) and all(_same_values(x, y) for x, y in zip(a, b)):
                 continue
+        if key == "member data" and any(v["sig"].startswith(f"{prefix}|data differ|") for v in viols):
+            continue  # the members are views of the collection data that was just reported
         bad = True
         show = (lambda x: repr(x)[:200]) if "data" in key else (lambda x: x)
         viols.append(
@@ -673,7 +707,13 @@ def _run_from_data(case):
     spatial = tuple(int(s) + (2 if ghost else 0) for s in grid.shape)
     size = ncomp * int(np.prod(spatial))
     vals = np.arange(size, dtype=float) + 1 + int(case["seed"]) % 97  # all distinct, exact in float32
-    flat = (vals + 1j * (vals + 0.5) if dtype == "complex128" else vals).astype(dtype).reshape((ncomp, *spatial))
+    if dtype == "int64":  # distinct, beyond 2**53, both signs
+        ivals = np.arange(size, dtype=np.int64) + (2**60 + 37 + int(case["seed"]) % 97)
+        flat = np.where(np.arange(size) % 2 == 1, -ivals, ivals).reshape((ncomp, *spatial))
+    elif dtype == "longdouble":  # distinct, not representable in a double
+        flat = (vals.astype(np.longdouble) + np.longdouble(2) ** -60).reshape((ncomp, *spatial))
+    else:
+        flat = (vals + 1j * (vals + 0.5) if dtype == "complex128" else vals).astype(dtype).reshape((ncomp, *spatial))
     flat_before = flat.copy()
     valid = (slice(None),) + tuple(slice(1, -1) for _ in spatial) if ghost else (slice(None),)
     classes = [_field_cls(m) for m in members]
@@ -689,8 +729,7 @@ def _run_from_data(case):
         call = f"from_data({members}, {_gstr(grid)}, {dtype} array{flat.shape}, with_ghost_cells={ghost}, dtype={dtype_arg})"
         return {"sig": f"{pre}|{what}", "msg": f"{call}: {msg}", "detail": detail}
 
-    def same(x, y):
-        return x.shape == y.shape and bool(np.array_equal(x, y))
+    same = _same_values
 
     try:
         fc = FieldCollection.from_data(
@@ -728,7 +767,7 @@ def _run_from_data(case):
     if not viols:
         if not same(fc.data, flat_before[valid]):
             viols.append(viol("collection data differs", "collection data is not the valid part of the array"))
-        if str(fc.dtype) != exp_dtype or any(str(m.dtype) != exp_dtype for m in fc):
+        if fc.dtype != np.dtype(exp_dtype) or any(m.dtype != np.dtype(exp_dtype) for m in fc):
             viols.append(viol("dtype differs", f"dtype {fc.dtype} (members {[str(m.dtype) for m in fc]}) instead of {exp_dtype}"))
         if list(fc.labels) != (mlabels or [None] * len(members)) or fc.label != case.get("label"):
             viols.append(viol("labels differ", f"label {fc.label!r}, labels {list(fc.labels)}"))
@@ -967,6 +1006,19 @@ def main(run):
     # --- grids
     go("grid", "grid_case", [{"grid": s} for s in grid_specs(run.tier)])
 
+    # wide dtypes: complete product in thorough; in quick a complete sub-product over one grid of every class
+    # (+ one with a hole) and one label pattern, so that the quick tier stays fast
+    if thorough:
+        wgrids, wlabels = fgrids, [None, "coll"]
+    else:
+        seen, wgrids = set(), []
+        for g in fgrids:
+            key = (g["cls"], isinstance(g.get("radius"), list))
+            if key not in seen:
+                seen.add(key)
+                wgrids.append(g)
+        wlabels = ["coll"]
+
     # --- single fields
     go(
         "field",
@@ -974,6 +1026,10 @@ def main(run):
         [
             {"grid": g, "fcls": c, "dtype": d, "label": lb, "seed": seed}
             for g, c, d, lb in itertools.product(fgrids, FIELD_CLASSES, DTYPES, LABELS)
+        ]
+        + [
+            {"grid": g, "fcls": c, "dtype": d, "label": lb, "seed": seed}
+            for g, c, d, lb in itertools.product(fgrids, FIELD_CLASSES, WIDE_DTYPES, LABELS[:2])
         ],
     )
 
@@ -988,6 +1044,11 @@ def main(run):
             {"grid": g, "members": m, "dtype": d, "label": lb, "mlabels": ml, "seed": seed}
             for g, m, d, lb in itertools.product(fgrids, seqs, DTYPES + ["mixed"], [None, "coll"])
             for ml in _mlabels(len(m))
+        ]
+        + [
+            {"grid": g, "members": m, "dtype": d, "label": lb, "mlabels": ml, "seed": seed}
+            for g, m, d, lb in itertools.product(wgrids, seqs, WIDE_DTYPES, wlabels)
+            for ml in (_mlabels(len(m)) if thorough else _mlabels(len(m))[1:2])
         ],
     )
 
@@ -999,6 +1060,10 @@ def main(run):
             {"grid": g, "members": m, "ghost": gh, "dtype": d, "dtype_arg": da, "label": lb, "mlabels": ml, "seed": seed}
             for g, m, gh, d, da in itertools.product(fgrids, seqs, [True, False], DTYPES, [False, True])
             for lb, ml in ((None, None), ("coll", [f"m{i}" for i in range(len(m))]))
+        ]
+        + [  # wide dtypes only with an explicit dtype= (without it the documented automatic dtype is double)
+            {"grid": g, "members": m, "ghost": gh, "dtype": d, "dtype_arg": True, "label": None, "mlabels": None, "seed": seed}
+            for g, m, gh, d in itertools.product(wgrids, seqs, [True, False], WIDE_DTYPES)
         ],
     )
 
@@ -1017,6 +1082,14 @@ def main(run):
         for g, m, d, lb in itertools.product(fgrids, st_seqs, DTYPES + ["mixed"], [None, "coll"])
         for ml in _mlabels(len(m))[-2:]
     ]
+    st_cases += [
+        {"grid": g, "fcls": c, "dtype": d, "label": "phi", "seed": seed}
+        for g, c, d in itertools.product(wgrids, FIELD_CLASSES, WIDE_DTYPES)
+    ]
+    st_cases += [
+        {"grid": g, "members": m, "dtype": d, "label": "coll", "mlabels": _mlabels(len(m))[1], "seed": seed}
+        for g, m, d in itertools.product(wgrids, st_seqs, WIDE_DTYPES)
+    ]
     go("storage", "storage_case", st_cases)
 
     run.notes["alphabet_sizes"] = sizes
@@ -1034,6 +1107,11 @@ def main(run):
         "field contents are generic values chosen by VERIF_SEED (plus one signed zero); from_data uses pairwise "
         "distinct values so that every component is identifiable",
         "memory sharing between restored objects is C15's subject and not examined here",
+        "wide dtypes (int64 with every entry beyond 2**53, longdouble with bits below the 53rd mantissa bit) are explored "
+        "on all field/collection/storage routes and on from_data with an explicit dtype=; values are compared exactly "
+        "(through clongdouble where it has a 64 bit mantissa, else as python numbers), never through a cast to double; "
+        "quick uses one grid per class (+ one with a hole) and one label pattern for them, thorough the full product; "
+        "from_data without dtype= is not explored for wide dtypes (documented automatic dtype = double)",
         "an explicitly float32 FieldCollection returned as float64 (values unchanged) by FieldCollection.copy() or by a "
         "storage read-back is recorded as an observation (refusals), not a violation: copy(dtype=None) documents the "
         "automatic dtype (double); the property only demands the dtype for reconstruction from serialised attributes + "
